@@ -1,4 +1,77 @@
-(* TEMPORARY STUB - replaced by the real property file *)
+(* C14 — serializer skip lists.  Model shared with C01 (model/C01_Model.v); proofs in
+   proof/C14_Proofs.v on top of proof/C01_Proofs_*.v. *)
+From QV.lib Require Import Prelude.
 From QV.model Require Import C01_Model.
-Theorem C14_stub : True. Proof. exact I. Qed.
-Print Assumptions C14_stub.
+From QV.proof Require Import C01_Proofs_RT C14_Proofs.
+From Coq Require Import String.
+Local Open Scope string_scope.
+Local Open Scope list_scope.
+
+(* every graph (also objects inside containers), names and types, at save time and at load time:
+   the loaded object is the normal form of the save-pruned graph, pruned again by the merged
+   (user + recorded) lists at load time *)
+Theorem C14_skip_general :
+  forall usn ust sn st v, wf_obj v = true ->
+    load_file usn ust (save_file sn st v) =
+    RVal (prune_load (usn ++ sn) (ust ++ filter (fun t => negb (mem t ust)) st) (norm (prune_save sn st v))).
+Proof. exact load_save_skip. Qed.
+Print Assumptions C14_skip_general.
+
+(* names listed at save time, at load time or both are absent at every attribute-nested level
+   and everything else is what a plain save/load gives (prune_load of norm v) *)
+Theorem C14_skip_exact :
+  forall sn_s sn_l v, wf_obj v = true -> attr_nested v = true ->
+    load_file sn_l [] (save_file sn_s [] v) = RVal (prune_load (sn_l ++ sn_s) [] (norm v)).
+Proof. exact skip_exact_names. Qed.
+Print Assumptions C14_skip_exact.
+
+(* skipping names at load time gives the same object as skipping the same names at save time *)
+Theorem C14_skip_save_eq_load :
+  forall S v, wf_obj v = true -> attr_nested v = true ->
+    load_file S [] (save_file [] [] v) = load_file [] [] (save_file S [] v).
+Proof. exact skip_save_eq_load. Qed.
+Print Assumptions C14_skip_save_eq_load.
+
+(* skip lists recorded in the file are honoured by a later load without being repeated: a store
+   that still contains every attribute but carries recorded lists loads like an explicit skip *)
+Theorem C14_skip_recorded :
+  forall sn st v, wf_obj v = true ->
+    load_file [] [] (set_attr "_autoserialize_skip_types" (JList (map JStr st))
+                       (set_attr "_autoserialize_skip_names" (JList (map JStr sn)) (encode_root [] [] v)))
+    = load_file sn st (save_file [] [] v) /\
+    load_file sn st (save_file [] [] v) = RVal (prune_load sn st (norm v)).
+Proof. exact skip_recorded. Qed.
+Print Assumptions C14_skip_recorded.
+
+Theorem C14_skip_recorded_save :
+  forall sn v, wf_obj v = true -> load_file [] [] (save_file sn [] v) = load_file sn [] (save_file sn [] v).
+Proof. exact skip_recorded_save. Qed.
+Print Assumptions C14_skip_recorded_save.
+
+(* skipping by type at save time removes every attribute that is an instance of a listed type
+   (prune_save [] st: isinstance against the MRO, at every serialised object) and all remaining
+   attributes load exactly as they would without skipping; the type list recorded in the file
+   removes nothing further *)
+Theorem C14_skip_types_save :
+  forall st v, wf_obj v = true -> load_file [] [] (save_file [] st v) = RVal (norm (prune_save [] st v)).
+Proof. exact skip_types_at_save. Qed.
+Print Assumptions C14_skip_types_save.
+
+(* names that occur nowhere in the graph change nothing, at save time, load time or both *)
+Theorem C14_skip_absent_names_harmless :
+  forall sn_s sn_l v, wf_obj v = true -> (forall k, In k (all_names v) -> mem k (sn_l ++ sn_s) = false) ->
+    load_file sn_l [] (save_file sn_s [] v) = RVal (norm v).
+Proof. exact skip_absent_names. Qed.
+Print Assumptions C14_skip_absent_names_harmless.
+
+(* non-vacuity: a depth-3 attribute-nested graph using every constructor satisfies the hypotheses;
+   a skip list with names at two depths (and one absent name) really removes attributes *)
+Example C14_nonvacuous_wf : wf_obj ex_graph_attr = true /\ attr_nested ex_graph_attr = true /\ wf_obj ex_graph = true.
+Proof. vm_compute. repeat split. Qed.
+Example C14_nonvacuous_skip :
+  res_eqb (load_file ["a"] [] (save_file ["x"; "zz"] ["builtins.int"] ex_graph_attr))
+          (RVal (prune_load ["a"; "x"; "zz"] ["builtins.int"] (norm (prune_save ["x"; "zz"] ["builtins.int"] ex_graph_attr)))) = true
+  /\ value_eqb (prune_load ["a"; "x"] [] (norm ex_graph_attr)) (norm ex_graph_attr) = false.
+Proof. vm_compute. split; reflexivity. Qed.
+Example C14_nonvacuous_absent : forall k, In k (all_names ex_graph_attr) -> mem k (["zz"] ++ ["nope"]) = false.
+Proof. intros k H. vm_compute in H. repeat (destruct H as [<-|H]; [reflexivity|]). destruct H. Qed.
